@@ -11,6 +11,7 @@ Definition api_check_tree (prop : N) (s : src) (ws : list (N * wop)) (o : tree_o
   else if prop =? 8 then chk_C08 s o
   else if prop =? 9 then chk_C09 s o
   else if prop =? 11 then chk_C11 s o
+  else if prop =? 17 then chk_C17 s o
   else 100.
 
 (* C05: history of calls on ReplaceSource(inner); inner is a source tree whose text is source(inner) *)
@@ -48,3 +49,11 @@ Definition api_comp (s : src) : list event * list event * list (list event) * li
    map (fun k => fst (fst (stream [] k (mkOpts false false)))) kids).
 Definition api_check_comp (s : src) (src_text : text) (c10 c00 : list event) (k10 k00 : list (list event)) : N :=
   chk_C06 s src_text c10 c00 k10 k00.
+
+From RS Require Import Sem.Json Checkers.ChkJson.
+(* C15 *)
+Definition api_json_value (m : smap) : text * option smap := (print (to_doc m), Some (norm_map m)).
+Definition api_json_doc (d : text) : option smap :=
+  match parse d with Some doc => of_doc doc | None => None end.
+Definition api_check_json_value := chk_C15_value.
+Definition api_check_json_doc := chk_C15_doc.
